@@ -119,6 +119,19 @@ def run(ctx):
                 res.caps_hit.append("%s/%s: frontier capped at 60000" % (variant, name))
             bounds["%s/%s" % (variant, name)] = {"bound": bound, "executions": st["executions"], "per_depth": st["per_depth"],
                                                 "choice_points": st["choice_points_max"]}
+    # certificates that expire far in the future (GeneralizedTime dates): issuing one and scheduling its renewal must not stop the daemon
+    far = []
+    for life in (70 * 365 * 86400, 7000 * 365 * 86400):
+        q = flows.issuance_request(pair="none", attempts=2, ca_cfg={"cert_lifetime_s": life})
+        q["meta"]["far_future"] = life
+        far.append(q)
+    for q, o in zip(far, e1.run_all(ctx.pool, far, 90.0)):
+        e1.check_obs(o)
+        res.evaluations += 1
+        res.transitions += len(o.get("cps", []))
+        res.outcomes["far-future:" + flows.outcome_class(o)[:40]] += 1
+        for (oracle, sig, ex, ob) in judge(q, o):
+            res.violation(oracle, sig + "|far-future-certificate", ex, ob, replay=q)
     # non-interference
     combos = [(1, 1), (2, 1), (1, 2)] if ctx.quick else [(h, f) for h in range(1, 6) for f in range(1, 6) if h + f <= 6]
     reqs = [multi_request(h, f) for h, f in combos]
